@@ -157,8 +157,318 @@ Verdict(inp, evs, crashed, errs) ==
   LET r == RunEvents(Start, inp, evs, 1)
       out == IF crashed THEN "Escaped" ELSE r.st.out IN
   (IF r.stuck # 0 /\ ~crashed THEN {"stage-order"} ELSE {})
+  \cup (IF r.stuck # 0 /\ ~crashed /\ inp.compiles /\ ~IsSub(r.st, evs[r.stuck])
+             /\ evs[r.stuck][1] \in {"Directors", "Compile"} /\ Why(evs[r.stuck][2]) = "syntax"
+          THEN {"compiler-error-on-compilable"} ELSE {})   \* the main Directors/Compile stage rejects a text CPython compiles
   \cup (IF r.stuck = 0 /\ ~crashed /\ r.st.phase # "end" THEN {"stage-order"} ELSE {})
   \cup (IF r.stuck = 0 \/ crashed THEN ReportFails(out, inp, errs) ELSE {})
+
+(* ------------------------------------------------------------------------------------------ *)
+(* Spec-planned input families (strengthening): WHICH texts are analysed is decided here, the   *)
+(* driver only renders the plans into source text and replays them into pytype.                  *)
+(*                                                                                              *)
+(* (1) error classes.  ErrorClasses is the catalogue of error names of pytype/errors/errors.py   *)
+(* PINNED at the commit the check was written for (not read from the code under test).           *)
+(* ProvokeTable gives, for every class (and for every formatter method that shares a class        *)
+(* name), one small text that provokes it, so that the message-formatting code of every class     *)
+(* runs; deps are stub files the text imports, opts option flags set to TRUE.                      *)
+(* ------------------------------------------------------------------------------------------ *)
+ErrorClasses == {
+  "annotation-type-mismatch", "assert-type", "attribute-error", "bad-concrete-type",
+  "bad-function-defaults", "bad-return-type", "bad-slots", "bad-unpacking",
+  "bad-yield-annotation", "base-class-error", "container-type-mismatch", "dataclass-error",
+  "duplicate-keyword-argument", "final-error", "ignored-abstractmethod", "ignored-metaclass",
+  "ignored-type-comment", "import-error", "incomplete-match", "invalid-annotation",
+  "invalid-directive", "invalid-function-definition", "invalid-function-type-comment", "invalid-namedtuple-arg",
+  "invalid-signature-mutation", "invalid-super-call", "invalid-typevar", "late-directive",
+  "match-error", "missing-parameter", "module-attr", "mro-error",
+  "name-error", "not-callable", "not-indexable", "not-instantiable",
+  "not-supported-yet", "not-writable", "override-error", "paramspec-error",
+  "pyi-error", "python-compiler-error", "recursion-error", "redundant-function-type-comment",
+  "redundant-match", "reveal-type", "signature-mismatch", "typed-dict-error",
+  "unbound-type-param", "unsupported-operands", "wrong-arg-count", "wrong-arg-types",
+  "wrong-keyword-args"
+}
+
+ProvokeTable == <<
+  [id |-> "attribute-error", want |-> "attribute-error",
+   src |-> "x = 1\nx.foo\n",
+   deps |-> <<>>, opts |-> <<>>],
+  [id |-> "not-writable", want |-> "not-writable",
+   src |-> "class A:\n  __slots__ = ('a',)\nA().b = 1\n",
+   deps |-> <<>>, opts |-> <<>>],
+  [id |-> "module-attr", want |-> "module-attr",
+   src |-> "import os\nos.nope\n",
+   deps |-> <<>>, opts |-> <<>>],
+  [id |-> "unbound-type-param", want |-> "unbound-type-param",
+   src |-> "import gen_a\ndef f():\n  return gen_a.A.x\n",
+   deps |-> <<<<"gen_a.pyi", "from typing import Generic, TypeVar\nT = TypeVar('T')\nclass A(Generic[T]):\n  x = ...  # type: T\n">>>>, opts |-> <<>>],
+  [id |-> "name-error", want |-> "name-error",
+   src |-> "x = undefined_name\n",
+   deps |-> <<>>, opts |-> <<>>],
+  [id |-> "import-error", want |-> "import-error",
+   src |-> "import nonexistent_module\n",
+   deps |-> <<>>, opts |-> <<>>],
+  [id |-> "wrong-arg-count", want |-> "wrong-arg-count",
+   src |-> "def f(a): pass\nf(1, 2)\n",
+   deps |-> <<>>, opts |-> <<>>],
+  [id |-> "wrong-arg-types", want |-> "wrong-arg-types",
+   src |-> "def f(a: int): pass\nf('s')\n",
+   deps |-> <<>>, opts |-> <<>>],
+  [id |-> "wrong-keyword-args", want |-> "wrong-keyword-args",
+   src |-> "def f(a): pass\nf(1, zz=2)\n",
+   deps |-> <<>>, opts |-> <<>>],
+  [id |-> "missing-parameter", want |-> "missing-parameter",
+   src |-> "def f(a): pass\nf()\n",
+   deps |-> <<>>, opts |-> <<>>],
+  [id |-> "not-callable", want |-> "not-callable",
+   src |-> "x = 1\nx()\n",
+   deps |-> <<>>, opts |-> <<>>],
+  [id |-> "not-indexable", want |-> "not-indexable",
+   src |-> "y = list[0]\n",
+   deps |-> <<>>, opts |-> <<>>],
+  [id |-> "not-instantiable", want |-> "not-instantiable",
+   src |-> "import abc\nclass A(abc.ABC):\n  @abc.abstractmethod\n  def f(self): ...\nA()\n",
+   deps |-> <<>>, opts |-> <<>>],
+  [id |-> "ignored-abstractmethod", want |-> "ignored-abstractmethod",
+   src |-> "import abc\nclass A:\n  @abc.abstractmethod\n  def f(self): ...\n",
+   deps |-> <<>>, opts |-> <<>>],
+  [id |-> "ignored-metaclass", want |-> "ignored-metaclass",
+   src |-> "class A:\n  __metaclass__ = type\n",
+   deps |-> <<>>, opts |-> <<>>],
+  [id |-> "duplicate-keyword-argument", want |-> "duplicate-keyword-argument",
+   src |-> "def f(a): pass\nf(1, a=2)\n",
+   deps |-> <<>>, opts |-> <<>>],
+  [id |-> "invalid-super-call", want |-> "invalid-super-call",
+   src |-> "def f():\n  return super().f()\nf()\n",
+   deps |-> <<>>, opts |-> <<>>],
+  [id |-> "base-class-error", want |-> "base-class-error",
+   src |-> "class A(1): pass\n",
+   deps |-> <<>>, opts |-> <<>>],
+  [id |-> "bad-return-type", want |-> "bad-return-type",
+   src |-> "def f() -> int:\n  return 's'\n",
+   deps |-> <<>>, opts |-> <<>>],
+  [id |-> "bad-return-type/any", want |-> "bad-return-type",
+   src |-> "def f(x):\n  return x.foo\n",
+   deps |-> <<>>, opts |-> <<"no_return_any">>],
+  [id |-> "bad-yield-annotation", want |-> "bad-yield-annotation",
+   src |-> "def f() -> int:\n  yield 1\n",
+   deps |-> <<>>, opts |-> <<>>],
+  [id |-> "bad-concrete-type", want |-> "bad-concrete-type",
+   src |-> "from typing import TypeVar, Generic\nT = TypeVar('T', int, str)\nclass A(Generic[T]): pass\nx: A[float] = None\n",
+   deps |-> <<>>, opts |-> <<>>],
+  [id |-> "unsupported-operands", want |-> "unsupported-operands",
+   src |-> "x = 1 + 's'\n",
+   deps |-> <<>>, opts |-> <<>>],
+  [id |-> "invalid-annotation", want |-> "invalid-annotation",
+   src |-> "def f(x: 1): pass\n",
+   deps |-> <<>>, opts |-> <<>>],
+  [id |-> "invalid-annotation/count", want |-> "invalid-annotation",
+   src |-> "from typing import List\nx: List[int, str] = None\n",
+   deps |-> <<>>, opts |-> <<>>],
+  [id |-> "mro-error", want |-> "mro-error",
+   src |-> "class A: pass\nclass B(A): pass\nclass C(A, B): pass\n",
+   deps |-> <<>>, opts |-> <<>>],
+  [id |-> "invalid-directive", want |-> "invalid-directive",
+   src |-> "x = 1  # pytype: disable=nonsense-error\n",
+   deps |-> <<>>, opts |-> <<>>],
+  [id |-> "late-directive", want |-> "late-directive",
+   src |-> "def f():\n  x = 1\n  # pytype: disable=name-error\n  return x\n",
+   deps |-> <<>>, opts |-> <<>>],
+  [id |-> "not-supported-yet", want |-> "not-supported-yet",
+   src |-> "from typing import TypeVarTuple\nTs = TypeVarTuple('Ts')\n",
+   deps |-> <<>>, opts |-> <<>>],
+  [id |-> "python-compiler-error", want |-> "python-compiler-error",
+   src |-> "x = (\n",
+   deps |-> <<>>, opts |-> <<>>],
+  [id |-> "recursion-error", want |-> "recursion-error",
+   src |-> "import rec_a\nv = rec_a.A()\n",
+   deps |-> <<<<"rec_a.pyi", "class A(B): ...\nclass B(A): ...\n">>>>, opts |-> <<>>],
+  [id |-> "redundant-function-type-comment", want |-> "redundant-function-type-comment",
+   src |-> "def f(x: int) -> int:\n  # type: (int) -> int\n  return x\n",
+   deps |-> <<>>, opts |-> <<>>],
+  [id |-> "invalid-function-type-comment", want |-> "invalid-function-type-comment",
+   src |-> "def f(x):\n  # type: (int, int) -> int\n  return x\n",
+   deps |-> <<>>, opts |-> <<>>],
+  [id |-> "ignored-type-comment", want |-> "ignored-type-comment",
+   src |-> "def f():\n  x = 1\n  # type: int\n  return x\n",
+   deps |-> <<>>, opts |-> <<>>],
+  [id |-> "invalid-typevar", want |-> "invalid-typevar",
+   src |-> "from typing import TypeVar\nT = TypeVar(1)\n",
+   deps |-> <<>>, opts |-> <<>>],
+  [id |-> "invalid-namedtuple-arg", want |-> "invalid-namedtuple-arg",
+   src |-> "import collections\nP = collections.namedtuple('P', ['a', 'a'])\n",
+   deps |-> <<>>, opts |-> <<>>],
+  [id |-> "bad-function-defaults", want |-> "bad-function-defaults",
+   src |-> "def f(a): pass\nf.__defaults__ = 1\n",
+   deps |-> <<>>, opts |-> <<>>],
+  [id |-> "bad-slots", want |-> "bad-slots",
+   src |-> "class A:\n  __slots__ = (1, 2)\n",
+   deps |-> <<>>, opts |-> <<>>],
+  [id |-> "bad-unpacking", want |-> "bad-unpacking",
+   src |-> "a, b = (1, 2, 3)\n",
+   deps |-> <<>>, opts |-> <<>>],
+  [id |-> "bad-unpacking/nondet", want |-> "bad-unpacking",
+   src |-> "a, b = {1, 2}\n",
+   deps |-> <<>>, opts |-> <<>>],
+  [id |-> "reveal-type", want |-> "reveal-type",
+   src |-> "x = 1\nreveal_type(x)\n",
+   deps |-> <<>>, opts |-> <<>>],
+  [id |-> "assert-type", want |-> "assert-type",
+   src |-> "x = 1\nassert_type(x, str)\n",
+   deps |-> <<>>, opts |-> <<>>],
+  [id |-> "annotation-type-mismatch", want |-> "annotation-type-mismatch",
+   src |-> "x: int = 's'\n",
+   deps |-> <<>>, opts |-> <<>>],
+  [id |-> "container-type-mismatch", want |-> "container-type-mismatch",
+   src |-> "from typing import List\nx: List[int] = []\nx.append('s')\n",
+   deps |-> <<>>, opts |-> <<>>],
+  [id |-> "invalid-function-definition", want |-> "invalid-function-definition",
+   src |-> "import dataclasses\n@dataclasses.dataclass\nclass A:\n  x: int = 1\n  y: str\n",
+   deps |-> <<>>, opts |-> <<>>],
+  [id |-> "invalid-signature-mutation", want |-> "invalid-signature-mutation",
+   src |-> "import np_a as np\ndef g(matrix: np.ndarray):\n  matrix = matrix[None, :]\n",
+   deps |-> <<<<"_typing_a.pyi", "from typing import Any\nNDArray: Any\n">>, <<"np_a.pyi", "from _typing_a import NDArray\nfrom typing import Any, Generic, TypeVar\n_T1 = TypeVar('_T1')\n_T2 = TypeVar('_T2')\nclass ndarray(Generic[_T1, _T2]):\n  def __getitem__(self: NDArray[Any], key: str) -> NDArray[Any]: ...\n">>>>, opts |-> <<>>],
+  [id |-> "typed-dict-error", want |-> "typed-dict-error",
+   src |-> "from typing import TypedDict\nclass A(TypedDict):\n  x: int\na = A(x=1)\na['y'] = 2\n",
+   deps |-> <<>>, opts |-> <<>>],
+  [id |-> "final-error", want |-> "final-error",
+   src |-> "from typing import Final\nx: Final = 1\nx = 2\n",
+   deps |-> <<>>, opts |-> <<>>],
+  [id |-> "final-error/override", want |-> "final-error",
+   src |-> "from typing import final\nclass A:\n  @final\n  def f(self): pass\nclass B(A):\n  def f(self): pass\n",
+   deps |-> <<>>, opts |-> <<>>],
+  [id |-> "final-error/subclass", want |-> "final-error",
+   src |-> "from typing import final\n@final\nclass A: pass\nclass B(A): pass\n",
+   deps |-> <<>>, opts |-> <<>>],
+  [id |-> "final-error/decorator", want |-> "final-error",
+   src |-> "from typing import final\n@final\ndef f(): pass\n",
+   deps |-> <<>>, opts |-> <<>>],
+  [id |-> "final-error/type", want |-> "final-error",
+   src |-> "from typing import Final, List\nx: List[Final[int]] = []\n",
+   deps |-> <<>>, opts |-> <<>>],
+  [id |-> "signature-mismatch", want |-> "signature-mismatch",
+   src |-> "class A:\n  def f(self, a): pass\nclass B(A):\n  def f(self): pass\n",
+   deps |-> <<>>, opts |-> <<>>],
+  [id |-> "match-error", want |-> "match-error",
+   src |-> "class A:\n  __match_args__ = ('a',)\n  a = 1\ndef f(x: A):\n  match x:\n    case A(1, 2): pass\n",
+   deps |-> <<>>, opts |-> <<>>],
+  [id |-> "incomplete-match", want |-> "incomplete-match",
+   src |-> "from enum import Enum\nclass E(Enum):\n  A = 1\n  B = 2\ndef f(x: E):\n  match x:\n    case E.A:\n      return 1\n",
+   deps |-> <<>>, opts |-> <<>>],
+  [id |-> "redundant-match", want |-> "redundant-match",
+   src |-> "import enum\nclass E(enum.Enum):\n  A = 1\n  B = 2\ndef f(x: E):\n  match x:\n    case E.A: return 1\n    case E.A: return 2\n    case _: return 3\n",
+   deps |-> <<>>, opts |-> <<>>],
+  [id |-> "paramspec-error", want |-> "paramspec-error",
+   src |-> "from typing import ParamSpec, Callable\nP = ParamSpec('P')\ndef f(x: Callable[P, int], *args: P.args): pass\n",
+   deps |-> <<>>, opts |-> <<>>],
+  [id |-> "dataclass-error", want |-> "dataclass-error",
+   src |-> "import dataclasses\n@dataclasses.dataclass\nclass A:\n  x: dataclasses.KW_ONLY\n  y: dataclasses.KW_ONLY\n",
+   deps |-> <<>>, opts |-> <<>>],
+  [id |-> "override-error", want |-> "override-error",
+   src |-> "from typing_extensions import override\nclass A: pass\nclass B(A):\n  @override\n  def f(self): pass\n",
+   deps |-> <<>>, opts |-> <<>>],
+  [id |-> "override-error/missing", want |-> "override-error",
+   src |-> "class A:\n  def f(self): pass\nclass B(A):\n  def f(self): pass\n",
+   deps |-> <<>>, opts |-> <<"require_override_decorator">>],
+  [id |-> "pyi-error", want |-> "pyi-error",
+   src |-> "import bad_a\n",
+   deps |-> <<<<"bad_a.pyi", "def f() -> int: ...\nclass f: ...\n">>>>, opts |-> <<>>]
+>>
+
+ProvokeWants == {ProvokeTable[k].want : k \in DOMAIN ProvokeTable}
+
+(* (2) ill-typed calls.  A callable shape x a call shape; the binding faults of the call are      *)
+(* computed here from the language's binding rules (confirmed against CPython by the driver on    *)
+(* every enumerated call) and named by the error class pytype reports for them, so that every     *)
+(* reporting path of a failed call runs with every argument-list shape, the empty one included.   *)
+CallKinds == {"def", "lambda", "method", "method-cls", "static", "static-cls", "classm", "classm-cls", "ctor"}
+Values == {"int", "none", "str", "list", "module"}             \* objects that are not callable
+ParamNames == {"self", "cls", "a", "b"}
+Ordinary == {"a", "b"}
+ParamLists == {<<>>} \cup {<<x>> : x \in ParamNames}
+              \cup {<<p[1], p[2]>> : p \in {q \in ParamNames \X ParamNames : q[1] # q[2]}}
+B2N(b) == IF b THEN 1 ELSE 0
+(* kind, parameter names, default on the last parameter, *args, **kw, a required keyword-only       *)
+(* parameter k, `: int` on the ordinary parameters; val is used by the kind "value" only            *)
+Callables ==
+  {c \in [kind : CallKinds, ps : ParamLists, dflt : BOOLEAN, star : BOOLEAN, kw : BOOLEAN,
+          kwonly : BOOLEAN, ann : BOOLEAN, val : {""}] :
+     /\ (c.dflt => c.ps # <<>>)
+     /\ (c.ann => c.kind # "lambda" /\ \E j \in DOMAIN c.ps : c.ps[j] \in Ordinary)}
+  \cup {[kind |-> "value", ps |-> <<>>, dflt |-> FALSE, star |-> FALSE, kw |-> FALSE, kwonly |-> FALSE,
+         ann |-> FALSE, val |-> v] : v \in Values}
+FlagIndex(c) == B2N(c.dflt) + 2 * B2N(c.star) + 4 * B2N(c.kw) + 8 * B2N(c.kwonly) + 16 * B2N(c.ann)
+NFlagSets == 32
+
+(* a call passes npos positionals (the values 1, 's', None in this order) and the keywords kws:     *)
+(* "first" = the first parameter's name (= 's'), "zz" = a name no parameter has, "k"                 *)
+KwPool(c) == IF c.ps = <<>> THEN {"zz", "k"} ELSE {"first", "zz", "k"}
+CallsOf(c) == IF c.kind = "value" THEN {[npos |-> n, kws |-> {}] : n \in 0 .. 1}
+              ELSE {[npos |-> n, kws |-> K] : n \in 0 .. 3, K \in SUBSET KwPool(c)}
+Receiver(c) == B2N(c.kind \in {"method", "classm", "classm-cls", "ctor"})   \* the callee gets a receiver first
+Min2(a, b) == IF a < b THEN a ELSE b
+NBound(c, call) == Min2(call.npos + Receiver(c), Len(c.ps))
+BindingFaults(c, call) ==
+  LET eff == call.npos + Receiver(c)
+      np == Len(c.ps)
+      nb == NBound(c, call) IN
+  IF c.kind = "value" THEN {"not-callable"} ELSE
+  (IF eff > np /\ ~c.star THEN {"wrong-arg-count"} ELSE {})
+  \cup (IF "first" \in call.kws /\ nb >= 1 THEN {"duplicate-keyword-argument"} ELSE {})
+  \cup (IF ("zz" \in call.kws /\ ~c.kw) \/ ("k" \in call.kws /\ ~c.kwonly /\ ~c.kw)
+          THEN {"wrong-keyword-args"} ELSE {})
+  \cup (IF \/ \E j \in (nb + 1) .. np : ~(c.dflt /\ j = np) /\ ~(j = 1 /\ "first" \in call.kws)
+           \/ c.kwonly /\ "k" \notin call.kws
+          THEN {"missing-parameter"} ELSE {})
+(* a well-bound call of an annotated callable whose int parameter receives 's' or None *)
+TypeFault(c, call) ==
+  /\ c.ann /\ BindingFaults(c, call) = {}
+  /\ \/ \E j \in 1 .. NBound(c, call) : c.ps[j] \in Ordinary /\ (j - Receiver(c)) \in {2, 3}
+     \/ "first" \in call.kws /\ c.ps[1] \in Ordinary
+ExpectClasses(c, call) == IF TypeFault(c, call) THEN {"wrong-arg-types"} ELSE BindingFaults(c, call)
+CallClasses == {"wrong-arg-count", "duplicate-keyword-argument", "wrong-keyword-args", "missing-parameter",
+                "not-callable", "wrong-arg-types"}
+
+(* (3) characters that str.splitlines() treats as a line break and CPython's tokenizer does not.     *)
+(* Inside a string literal or a comment they are ordinary characters; between two tokens of one     *)
+(* line only the form feed is white space, every other one is an invalid character.  None of them   *)
+(* starts a new line: the number of lines, and - where the insertion is harmless - whether the text *)
+(* compiles and which line is blamed, are those of the text without the character.                  *)
+CharSeq == <<"ff", "vt", "fs", "gs", "rs", "nel", "ls", "ps">>     \* 0C 0B 1C 1D 1E 85 2028 2029
+PlaceSeq == <<"token", "string", "comment">>
+AllExoChars == {CharSeq[k] : k \in DOMAIN CharSeq}
+Places == {PlaceSeq[k] : k \in DOMAIN PlaceSeq}
+ExoKind(place) == "ws-" \o place
+Harmless(place, ch) == place # "token" \/ ch = "ff"
+
+(* composed texts: head ; precondition ; middle ; tail.  The precondition is a construct for which  *)
+(* pytype rewrites or re-reads the source text (bare annotations, type comments, directives); the   *)
+(* tail puts an error on the LAST line: of a text that compiles, or of one that does not (rejected   *)
+(* by the parser or only by the symbol-table pass); eol = the text ends with a newline.              *)
+PrecondSeq == <<"none", "ann-func", "ann-async", "ann-module", "ann-class", "ann-method", "ann-semi",
+                "type-comment", "func-type-comment", "directive", "type-ignore">>
+TailSeq == <<"clean", "name-error", "return-outside", "nonlocal-unbound", "unclosed-paren", "fold-error">>
+RegionSeq == <<"head", "pre", "mid", "tail">>
+Preconds == {PrecondSeq[k] : k \in DOMAIN PrecondSeq}
+Tails == {TailSeq[k] : k \in DOMAIN TailSeq}
+Regions == {RegionSeq[k] : k \in DOMAIN RegionSeq}
+Idx(seq, x) == CHOOSE k \in DOMAIN seq : seq[k] = x
+BaseCompiles(tail) == tail \in {"clean", "name-error", "fold-error"}
+ComposePlans == [pre : Preconds, tail : Tails, eol : BOOLEAN, region : Regions, place : Places, ch : AllExoChars]
+ComposeCompiles(p) == BaseCompiles(p.tail) /\ Harmless(p.place, p.ch)
+(* partition into n slices such that every (pre, tail, region) meets every slice with 48/n           *)
+(* (place, ch, eol) combinations when n divides 48                                                   *)
+SliceOf(p, n) == (16 * Idx(PlaceSeq, p.place) + 2 * Idx(CharSeq, p.ch) + B2N(p.eol)
+                  + 5 * Idx(PrecondSeq, p.pre) + 7 * Idx(TailSeq, p.tail) + 11 * Idx(RegionSeq, p.region)) % n
+
+(* attribution of a known defect (computed from the oracle side only: anntrail = the lines on which  *)
+(* CPython's ast sees a bare annotation inside a function followed by more code, or holding a `#`     *)
+(* inside the annotation): pytype appends ` = ...` to the END of such a line                          *)
+Attribution(fails, anntrail, errs) ==
+  IF "compiler-error-on-compilable" \in fails /\ Len(errs) = 1
+     /\ \E j \in DOMAIN anntrail : anntrail[j] = errs[1][2]
+  THEN "bare-annotation-line-with-trailing-code" ELSE ""
 
 (* ------------------------------------------------------------------------------------------ *)
 (* The machine as a TLA+ behaviour spec: inputs (optionally mutated), all allowed runs, and the *)
@@ -167,11 +477,16 @@ Verdict(inp, evs, crashed, errs) ==
 (* ------------------------------------------------------------------------------------------ *)
 CONSTANTS MaxLines, MutKinds, Slots, MaxMut, Export,
           MaxSub,        \* model bound: sub-run events per behaviour
-          MaxSubDepth    \* model bound: nesting of sub-runs
+          MaxSubDepth,   \* model bound: nesting of sub-runs
+          Families,      \* planned families enumerated by this run: subset of {"call", "provoke", "compose"}
+          ExoChars,      \* exotic characters inserted into pool texts by this run (subset of AllExoChars)
+          CallFlagSlice, \* flag sets (FlagIndex values) of the call family enumerated by this run
+          NSlices, Slice \* this run enumerates slice Slice of the NSlices slices of the composed texts
 
-VARIABLES inp, st, errs, muts, hist
+VARIABLES inp, st, errs, muts, hist,
+          plan           \* the planned text: [fam |-> "none"] or a plan of one of the families
 
-vars == <<inp, st, errs, muts, hist>>
+vars == <<inp, st, errs, muts, hist, plan>>
 
 Inputs ==
   {i \in [compiles : BOOLEAN, cline : 0 .. MaxLines, nlines : 1 .. MaxLines, skip : BOOLEAN,
@@ -181,19 +496,75 @@ Inputs ==
 
 Excs == {"SyntaxError", "IndentationError", "CompileError", "SkipFileError", "ConstantError"}
 ErrNames == {"python-compiler-error", "attribute-error"}
+NoPlan == [fam |-> "none"]
 
 Init == inp \in Inputs /\ st = [k |-> -1, phase |-> "src", out |-> "none", sub |-> <<>>] /\ errs = <<>>
-        /\ muts = <<>> /\ hist = <<>>
+        /\ muts = <<>> /\ hist = <<>> /\ plan = NoPlan
 
 (* Mutate(kind, slot): a token of the text is deleted / duplicated / swapped with its neighbour / *)
 (* preceded by a stray token; the result is some text whose attributes are unconstrained.         *)
+(* A mutation is <<kind, slot, character>>; the character is "" for these kinds.                   *)
 Mutate(kind, slot) ==
-  /\ st.phase = "src" /\ Len(muts) < MaxMut
+  /\ st.phase = "src" /\ Len(muts) < MaxMut /\ plan.fam = "none"
+  /\ \A j \in DOMAIN muts : muts[j][3] = ""
   /\ inp' \in {i \in Inputs : i.mode = inp.mode}
-  /\ muts' = Append(muts, <<kind, slot>>)
-  /\ UNCHANGED <<st, errs, hist>>
+  /\ muts' = Append(muts, <<kind, slot, "">>)
+  /\ UNCHANGED <<st, errs, hist, plan>>
 
-Begin == st.phase = "src" /\ st' = Start /\ UNCHANGED <<inp, errs, muts, hist>>
+(* Precondition: a bare annotation `v: int` is put at the start of every function body of a pool  *)
+(* text, which makes pytype rewrite the source before compiling it; the text still compiles iff it *)
+(* did (a fresh local name), its other attributes are unconstrained                                 *)
+Precondition ==
+  /\ st.phase = "src" /\ muts = <<>> /\ plan.fam = "none" /\ ExoChars # {}
+  /\ plan' = [fam |-> "pre", pre |-> "ann"]
+  /\ inp' \in {i \in Inputs : i.mode = inp.mode /\ i.compiles = inp.compiles /\ i.skip = inp.skip}
+  /\ UNCHANGED <<st, errs, muts, hist>>
+
+(* MutateExo(place, slot, ch): one exotic character at a token boundary / inside a string literal *)
+(* / inside a comment of a pool text (optionally after Precondition).  It never adds a line; where *)
+(* it is harmless the oracle's view of the text is unchanged, otherwise the text does not compile.  *)
+MutateExo(place, slot, ch) ==
+  /\ st.phase = "src" /\ muts = <<>> /\ plan.fam \in {"none", "pre"}
+  /\ inp' \in {i \in Inputs : /\ i.mode = inp.mode /\ i.nlines = inp.nlines
+                             /\ (Harmless(place, ch) => i.compiles = inp.compiles /\ i.cline = inp.cline)
+                             /\ (~Harmless(place, ch) => ~i.compiles)}
+  /\ muts' = << <<ExoKind(place), slot, ch>> >>
+  /\ UNCHANGED <<st, errs, hist, plan>>
+
+CanonInput(i) == i.compiles /\ ~i.skip /\ i.nlines = MaxLines
+Planned(compiles) ==
+  {i \in Inputs : i.mode = inp.mode /\ ~i.skip /\ i.nlines = MaxLines /\ i.compiles = compiles
+                  /\ (~compiles => i.cline > 0)}
+Unplanned == st.phase = "src" /\ muts = <<>> /\ plan.fam = "none" /\ CanonInput(inp)
+
+(* PlanCall(c): the text defines the callable c and calls it with every call shape, one call per   *)
+(* line; the plan carries the faults the language's binding rules give each call                    *)
+PlanCall(c) ==
+  /\ Unplanned /\ "call" \in Families /\ FlagIndex(c) \in CallFlagSlice
+  /\ plan' = [fam |-> "call", c |-> c,
+              calls |-> {[npos |-> call.npos, kws |-> call.kws, faults |-> BindingFaults(c, call),
+                          tfault |-> TypeFault(c, call)] : call \in CallsOf(c)}]
+  /\ inp' \in Planned(TRUE)
+  /\ UNCHANGED <<st, errs, muts, hist>>
+
+(* Provoke(k): the k-th text of the table, which provokes the error class ProvokeTable[k].want      *)
+Provoke(k) ==
+  /\ Unplanned /\ "provoke" \in Families
+  /\ plan' = [fam |-> "provoke", k |-> k, id |-> ProvokeTable[k].id, want |-> ProvokeTable[k].want,
+              src |-> ProvokeTable[k].src, deps |-> ProvokeTable[k].deps, opts |-> ProvokeTable[k].opts]
+  /\ inp' \in Planned(ProvokeTable[k].want # "python-compiler-error")
+  /\ UNCHANGED <<st, errs, muts, hist>>
+
+(* Compose(p): head ; precondition ; middle ; tail with one exotic character in one region          *)
+Compose(p) ==
+  /\ Unplanned /\ "compose" \in Families /\ SliceOf(p, NSlices) = Slice
+  /\ plan' = [fam |-> "compose", pre |-> p.pre, tail |-> p.tail, eol |-> p.eol, region |-> p.region,
+              place |-> p.place, ch |-> p.ch, compiles |-> ComposeCompiles(p),
+              basecompiles |-> BaseCompiles(p.tail), harmless |-> Harmless(p.place, p.ch)]
+  /\ inp' \in Planned(ComposeCompiles(p))
+  /\ UNCHANGED <<st, errs, muts, hist>>
+
+Begin == st.phase = "src" /\ st' = Start /\ UNCHANGED <<inp, errs, muts, hist, plan>>
 
 (* hist records <<stage, status, "main" | "sub">>; Verdict reads the first two components only *)
 Stage ==
@@ -204,7 +575,7 @@ Stage ==
        /\ Allowed(st, inp, ev)
        /\ st' = Advance(st, inp, ev)
        /\ hist' = Append(hist, <<ev[1], ev[2], "main">>)
-  /\ UNCHANGED <<inp, errs, muts>>
+  /\ UNCHANGED <<inp, errs, muts, plan>>
 
 NSub == Cardinality({j \in DOMAIN hist : hist[j][3] = "sub"})
 
@@ -218,7 +589,7 @@ SubStage ==
        /\ (ev = <<"Compile", "ok">> => Len(st.sub) < MaxSubDepth)
        /\ st' = Advance(st, inp, ev)
        /\ hist' = Append(hist, <<ev[1], ev[2], "sub">>)
-  /\ UNCHANGED <<inp, errs, muts>>
+  /\ UNCHANGED <<inp, errs, muts, plan>>
 
 (* the report the code attaches to a terminal outcome (errorlog) *)
 Report ==
@@ -232,13 +603,25 @@ Report ==
      \/ /\ st.out = "Result"
         /\ \E l \in 1 .. inp.nlines : errs' = << <<"attribute-error", l>> >>
   /\ st' = [st EXCEPT !.phase = "reported"]
-  /\ UNCHANGED <<inp, muts, hist>>
+  /\ UNCHANGED <<inp, muts, hist, plan>>
 
 NoReport == st.phase = "end" /\ st.out \in {"Result", "Skipped"} /\ st' = [st EXCEPT !.phase = "reported"]
-            /\ UNCHANGED <<inp, errs, muts, hist>>
+            /\ UNCHANGED <<inp, errs, muts, hist, plan>>
 
-Next == (\E k \in MutKinds, s \in Slots : Mutate(k, s)) \/ Begin \/ Stage \/ SubStage \/ Report \/ NoReport
+Next == \/ \E k \in MutKinds, s \in Slots : Mutate(k, s)
+        \/ Precondition
+        \/ \E pl \in Places, s \in Slots, ch \in ExoChars : MutateExo(pl, s, ch)
+        \/ \E c \in Callables : PlanCall(c)
+        \/ \E k \in DOMAIN ProvokeTable : Provoke(k)
+        \/ \E p \in ComposePlans : Compose(p)
+        \/ Begin \/ Stage \/ SubStage \/ Report \/ NoReport
 Spec == Init /\ [][Next]_vars
+
+(* the catalogue and the table agree; every class has a provoking text *)
+ASSUME ProvokeWants = ErrorClasses /\ CallClasses \subseteq ErrorClasses
+ASSUME ExoChars \subseteq AllExoChars
+(* the export run hands the pinned catalogue to the driver (vacuity guard on the names observed) *)
+ASSUME Export => PrintT(<<"CASE", ToJson([catalogue |-> ErrorClasses, callclasses |-> CallClasses])>>)
 
 (* C15 on the machine *)
 Terminal == st.phase = "reported"
@@ -268,5 +651,9 @@ SubRunsNested ==
   /\ (st.sub # <<>> => st.k \in SubWindow)
 
 ExportInv ==
-  (Export /\ st.phase = "run" /\ st.k = 0) => PrintT(<<"CASE", ToJson([muts |-> muts, mode |-> inp.mode])>>)
+  (Export /\ st.phase = "run" /\ st.k = 0) =>
+     PrintT(<<"CASE", ToJson([muts |-> muts, mode |-> inp.mode, plan |-> plan])>>)
+(* the plan families never leave the pinned catalogue: what a call plan expects is a class of it *)
+PlansInCatalogue ==
+  plan.fam = "call" => \A call \in plan.calls : call.faults \subseteq CallClasses
 =============================================================================
